@@ -97,10 +97,12 @@ impl Registry {
 }
 
 pub struct Env {
-    pub rt: tokio::runtime::Runtime,
-    pub mock: MockCluster,
+    // field order = drop order: the session goes first so that its workers are cancelled (not
+    // torn down mid-`spawn_blocking` by the runtime shutting down under them), the runtime last
     pub session: Arc<Session>,
     pub registry: Arc<Registry>,
+    pub mock: MockCluster,
+    pub rt: tokio::runtime::Runtime,
 }
 
 pub struct EnvSpec {
@@ -108,6 +110,8 @@ pub struct EnvSpec {
     pub keyspaces: Vec<KsDef>,
     pub features: Features,
     pub fetch_schema: bool,
+    /// only the first k nodes are announced in system.peers at session start (the rest listen but are hidden)
+    pub visible_nodes: Option<usize>,
     pub configure: Box<dyn Fn(SessionBuilder) -> SessionBuilder + Send + Sync>,
 }
 
@@ -118,6 +122,7 @@ impl Default for EnvSpec {
             keyspaces: vec![],
             features: Features::default(),
             fetch_schema: false,
+            visible_nodes: None,
             configure: Box::new(|b| b),
         }
     }
@@ -133,6 +138,9 @@ pub fn build_env(spec: &EnvSpec, seed: u64) -> Result<Env, String> {
     let (mock, session) = rt.block_on(async {
         let mock = MockCluster::start(spec.nodes.clone(), spec.keyspaces.clone(), spec.features.clone(), seed).await?;
         mock.set_brain(registry.brain());
+        if let Some(k) = spec.visible_nodes {
+            mock.set_nodes(spec.nodes[..k.min(spec.nodes.len())].to_vec());
+        }
         let b = SessionBuilder::new()
             .known_node_addr(mock.contact_point())
             .fetch_schema_metadata(spec.fetch_schema)
